@@ -20,6 +20,9 @@ def assertions(n, w, count):
 def scenario(rec, idx, seed=0):
     """rec = {"t": statement, "asserts": assertion list computed by Stark.tla, "corruptions": [...]}"""
     sc = _scenario(rec["t"], idx, seed, rec.get("asserts"))
+    sc["stmt"] = rec["t"]
+    sc["ccols"] = rec.get("ccols", 0)
+    sc["layers"] = rec.get("layers", 0)
     return sc
 
 
